@@ -24,6 +24,11 @@ CHECKS = {
          "list of contexts or a helper datasource), every active context and outcome per implementation, evaluated by the real engine; "
          "oracle: latest registered implementation for the active context supplies the spec, overridden and foreign-context implementations never run",
          "deterministic simulation: generated registration histories x active context x outcome plan under seeded engine order; reference model of the resolution rule"),
+ "C06": ("w2", "3.C06", "host collection mirrored with the real apply_blacklist / factories / Hydration / run_all on a simulated host (real directory tree with "
+         "symlink chains, '..' paths, a sibling sharing the root's name as prefix; command table behind a HostContext subclass) under an audit-hook "
+         "monitor: containment of every FileProvider, no open / Popen / executed command matching the deny list across all nine factories, every "
+         "write between persister registration and the end of run_all beneath the output directory (+ before/after walk)",
+         "deterministic simulation: generated host layouts x deny lists x spec sets over all factories, seeded engine order, audit-hook I/O monitor; containment / never-opened / never-executed / writes-beneath-output invariants"),
  "C07": ("w4", "3.C07", "histories of filter registrations / look-ups / late component definitions against the real registry with a reference "
          "model consulted after every look-up; then the filters in force applied to generated content through six paths (host file + real grep, "
          "host command pipeline + real grep, archive post-filter, Cleaner allow-list, filter_content, apply_filters) with the line-level laws checked on each",
@@ -40,6 +45,11 @@ CHECKS = {
          "compared; application order of the obfuscators observed per line and required to follow one total order; marker-based order / one-to-one / "
          "empty-collapse checks",
          "deterministic simulation: the process hash seed as the schedule (each case under >= 2 seeds, 16 seeds per batch), instrumented application order; cross-run equality"),
+ "C11": ("w2", "3.C11", "collect into an archive, then load it with the real initialize_broker/hydrate in a fresh broker; fault sequences during persist "
+         "(n-th write-open / mkdir fails with ENOSPC/EIO via audit hook, data write fails or is silently cut after k bytes, metadata dump fails midway) "
+         "and corruption of any subset of stored entries between the two phases; strict field-by-field round trip for untouched entries, 'may be absent, "
+         "never wrong' for damaged ones, load never raises",
+         "deterministic simulation with fault injection: I/O faults at the n-th syscall during persist + torn/short writes + corruption of stored state between collect and load; round-trip oracle against what was persisted"),
  "C12": ("w1r", "3.C12", "generated rule sets (shared modules/keys/types, every return kind and constructor-argument shape, payloads around "
          "the size limit) under the real SingleEvaluator / InsightsEvaluator / JsonFormat, serial, incremental and on SimPool with seeded "
          "interleavings traced through evaluators.py; counting oracle: each rule in exactly the predicted bucket, entry fields, totals",
@@ -59,6 +69,7 @@ NA = [
   ("C20", "query evaluation is a pure function of (tree, query, options) (DESIGN.md section 5)"),
 ]
 ENGINES = {
+ "w2": ("worlds/w2_collect.py", "W2: mirror of insights.collect.collect() + hydration on a simulated host (scratch tree, command table, audit-hook monitor / injector, seeded engine order)"),
  "w3": ("worlds/w3_cleaner.py", "W3: histories of typed-segment specs through one real Cleaner; hash seed owned by the runner"),
  "w4": ("worlds/w4_filters.py", "W4: filter registry histories on spec sets built through the real metaclass + content laws across the six filter application paths (real grep)"),
  "w5": ("worlds/w5_clientstate.py", "W5: client state directory histories on a scratch tree with seeded uuid/clock/RHSM peer and audit-hook I/O monitor + fault injector"),
